@@ -198,6 +198,12 @@ func run(line string) (out string) {
 			prev = p
 		}
 	}
+	dom := fmt.Sprintf(" (dom %s)", sx.B(server.VerifIsDominant(g, n, open)))
+	defer func() {
+		if strings.HasPrefix(out, "ok ") {
+			out += dom
+		}
+	}()
 	r := server.VerifNegotiate(g, n, open, prev)
 	if r.Notif != nil {
 		return fmt.Sprintf("ok %s (notif %d %d)", sent, r.Notif.ErrorCode, r.Notif.ErrorSubcode)
